@@ -72,6 +72,29 @@ func genIOCase(r *sim.Rng, tier string, idx int) *IOCase {
 				w.LZ.Size, w.LZ.SizeInHeader = int64(n), true
 			}
 			w.Ops = genHistory(r, n, w.Format == "lzma2", []int{65536}, false)
+		} else if w.XZ != nil && r.Chance(1, 5) {
+			// several blocks, each of several LZMA2 chunks (a chunk is full at
+			// DictCap bytes below 64 KiB), written with few large Write calls:
+			// chunks are emitted from inside a Write that crosses a block
+			// boundary, so a sink fault can meet the block rotation
+			d := sim.Pick(r, []int{4096, 4096, 4097, 6144, 8192})
+			w.XZ.DictCap, w.XZ.BufSize = d, sim.Pick(r, []int{273, 300, 1000, 4096})
+			w.XZ.BlockSize = int64(r.Range(d+500, 4*d))
+			w.Payload = sim.GenPayload(r, 0)
+			n := r.Range(int(w.XZ.BlockSize)+1, 3*int(w.XZ.BlockSize))
+			switch r.Intn(3) {
+			case 0:
+				w.Payload = sim.Payload{Kind: "text", N: n, Seed: r.Uint64()}
+			case 1:
+				w.Payload = sim.Payload{Kind: "prng", N: n, Seed: r.Uint64()}
+			default:
+				w.Payload = sim.Payload{Kind: "concat", Parts: []sim.Payload{{Kind: "text", N: n / 2, Seed: r.Uint64()}, {Kind: "prng", N: n - n/2, Seed: r.Uint64()}}}
+			}
+			w.Ops = []Op{{K: "w", N: n}, {K: "c"}}
+			if r.Bool() {
+				k := r.Range(1, n-1)
+				w.Ops = []Op{{K: "w", N: k}, {K: "w", N: n - k}, {K: "c"}}
+			}
 		} else if w.Payload.Len() > lim {
 			w.Payload = sim.GenPayload(r, lim)
 			n := w.Payload.Len()
@@ -299,14 +322,18 @@ func runIOReader(c *IOCase, x *sim.Ctx) *sim.Violation {
 	x.Shape(b.Format)
 	site, bounds := streamSites(b)
 	n := len(b.Stream)
-	pos := positionsCost(n+1, bounds, n+1, decodeCost(b)*2)
+	pos := positionsCost(n+1, bounds, n+1, decodeCost(b, rc.Reads)*2)
 	for _, k := range pos {
-		for variant := 0; variant < 2; variant++ {
-			if c.HasOnly && c.Only != k*2+variant {
+		// variant 0: bare error, sticky; 1: error together with the last good
+		// bytes, sticky; 2: bare error once (a transient failure: the source
+		// carries on afterwards) - no standard-library helper legitimately
+		// drops an error that arrives without data, so it must surface too
+		for variant := 0; variant < 3; variant++ {
+			if c.HasOnly && c.Only != k*3+variant {
 				continue
 			}
 			d := *rc
-			d.Src.Fail, d.Src.FailAt, d.Src.WithData = true, k, variant == 1
+			d.Src.Fail, d.Src.FailAt, d.Src.WithData, d.Src.Once = true, k, variant == 1, variant == 2
 			sub := sim.NewCtx(false)
 			res := runReader(b.Format, b.Stream, len(b.Content), &d, len(b.Content)+4096, sub)
 			x.Eval(1)
@@ -321,9 +348,12 @@ func runIOReader(c *IOCase, x *sim.Ctx) *sim.Violation {
 				continue
 			}
 			x.Nontrivial(1)
-			if variant == 1 {
+			switch variant {
+			case 1:
 				x.Fault("source-error-with-data")
-			} else {
+			case 2:
+				x.Fault("source-error-bare-once")
+			default:
 				x.Fault("source-error-bare")
 			}
 			x.Count("fault-at."+b.Format+"."+st, 1)
@@ -362,7 +392,7 @@ func runIOReader(c *IOCase, x *sim.Ctx) *sim.Violation {
 			}
 			if v != nil {
 				nc := *c
-				nc.HasOnly, nc.Only = true, k*2+variant
+				nc.HasOnly, nc.Only = true, k*3+variant
 				v.Narrow = &nc
 				return v
 			}
@@ -391,7 +421,7 @@ func init() {
 			if tier == "thorough" {
 				return 80000
 			}
-			return 1200
+			return 900
 		},
 		Budget: func(tier string) time.Duration {
 			if tier == "thorough" {
